@@ -245,13 +245,15 @@ def scenario(job):
             w.sd = None
             w.stopped = False
             w.unrecoverable = False
+            w.retriable_fail = False
 
         def on_start_result(r):
             w.res.append(r)
             # the start() Deferred reports a failure only for something unrecoverable that actually happened (a processor
             # failure, a commit refused for good); retriable commit errors and back-off are not that
             if isinstance(r, Failure):
-                ctx.check(w.unrecoverable, "start-deferred-fails-only-on-unrecoverable-error", "start() Deferred failed with %r although nothing unrecoverable was injected" % (r.value,))
+                # (shutdown() limits the number of attempts, so a retriable commit failure can be the last permitted one then)
+                ctx.check(w.unrecoverable or (w.retriable_fail and w.sd is not None), "start-deferred-fails-only-on-unrecoverable-error", "start() Deferred failed with %r although nothing unrecoverable was injected" % (r.value,))
             else:
                 ctx.check(w.stopped or w.sd is not None or w.consumer._stopping, "start-deferred-succeeds-only-on-stop", "start() Deferred fired with %r while running" % (r,))
             if isinstance(r, Failure) and job["stop_on_fail"] and w.consumer._start_d is not None and not w.consumer._stopping:
@@ -365,6 +367,8 @@ def scenario(job):
                     w.client.resolve(p, [OffsetCommitResponse(TOPIC, PART, 0)])
                     return
                 cfaults[0] -= 1
+                if k in (1, 2):
+                    w.retriable_fail = True
                 if k == 1:
                     w.client.fail(p, NotCoordinator())
                 elif k == 2:  # applied by the broker, reply lost
